@@ -20,8 +20,14 @@ func mix64(z uint64) uint64 {
 // 0x00, 2 = runs of 0xFF, 3 = CRLF-heavy text, 4 = one repeated byte. In every
 // style a byte depends on (key, offset) so that loss, duplication or
 // reordering shifts the stream against its expectation.
+// PrfForceRaw makes every stream pseudo-random throughout (C04 searches the wire for payload windows).
+var PrfForceRaw bool
+
 func prfFill(key uint64, off int64, dst []byte) {
 	style := key & 7
+	if PrfForceRaw {
+		style = 0
+	}
 	for i := range dst {
 		o := uint64(off) + uint64(i)
 		w := mix64(key + (o>>3)*0x9e3779b97f4a7c15)
